@@ -675,12 +675,59 @@ pub fn run(session: &Session) -> i32 {
             texts.extend(succeeding.iter().map(|t| t.to_string()));
             cases.push(json!({"kind": "history", "texts": texts, "rounds": 12}));
         }
+        // imports that fail (a file with a syntax error, a type error, a missing name of the importer, a
+        // cycle, an error in a file imported by the imported file) followed by imports of the same files
+        // that succeed, on one thread, several rounds: what a failed import was doing is forgotten
+        {
+            let dir = std::env::temp_dir().join(format!("vcheck-c05-imports-{}", std::process::id()));
+            let _ = std::fs::remove_dir_all(&dir);
+            let _ = std::fs::create_dir_all(&dir);
+            let d = dir.to_string_lossy().to_string();
+            for (name, body) in [
+                ("lib.sl", "value := k; pair := (k, k);".to_string()),
+                ("syntax.sl", "p := := 1".to_string()),
+                ("types.sl", "p := 1 + \"a\" * 2;".to_string()),
+                ("fold.sl", "p := [1][5];".to_string()),
+                ("outer.sl", format!("inner := import \"{d}/lib.sl\"; v := inner.value;")),
+                ("outer_bad.sl", format!("first := import \"{d}/lib.sl\"; second := import \"{d}/types.sl\";")),
+                ("cyc_a.sl", format!("b := import \"{d}/cyc_b.sl\"; x := 1;")),
+                ("cyc_b.sl", format!("a := import \"{d}/cyc_a.sl\"; l := import \"{d}/lib.sl\";")),
+                ("plain.sl", "one := 1; two := one + 1;".to_string()),
+            ] {
+                let _ = std::fs::write(dir.join(name), body);
+            }
+            let texts: Vec<String> = [
+                "lib := import \"D/lib.sl\"; lib",
+                "k := 2; lib := import \"D/lib.sl\"; lib.value + 1",
+                "b := import \"D/syntax.sl\"; 1",
+                "p := import \"D/plain.sl\"; p.two",
+                "o := import \"D/outer.sl\"; o.v",
+                "k := \"s\"; o := import \"D/outer.sl\"; o.v + \"t\"",
+                "k := 1; o := import \"D/outer_bad.sl\"; o",
+                "k := 1; lib := import \"D/lib.sl\"; t := import \"D/plain.sl\"; (lib.pair, t.one)",
+                "a := import \"D/cyc_a.sl\"; a.x",
+                "k := 5; b := import \"D/cyc_b.sl\"; b",
+                "k := 5; lib := import \"D/lib.sl\"; lib.value",
+                "f := import \"D/fold.sl\"; f",
+                "k := [1]; o := import \"D/outer.sl\"; std.len(o.v)",
+                "t := import \"D/types.sl\"; t",
+                "k := 2.5; lib := import \"D/lib.sl\"; p := import \"D/plain.sl\"; (lib.value, p.two)",
+            ]
+            .iter()
+            .map(|t| t.replace("D/", &format!("{d}/")))
+            .collect();
+            cases.push(json!({"kind": "history", "texts": texts, "rounds": 6}));
+            let mut back = texts.clone();
+            back.reverse();
+            cases.push(json!({"kind": "history", "texts": back, "rounds": 6}));
+        }
         for x in 0..CATALOGUE.len() {
             // every unary cell of one operand type, each called on a value of the type
             let texts: Vec<String> = (0..UNARY.len()).map(|t| matrix_call(x, t, t)).collect();
             cases.push(json!({"kind": "history", "texts": texts, "rounds": 2}));
         }
         session.run_enum(&C05, cases);
+        let _ = std::fs::remove_dir_all(std::env::temp_dir().join(format!("vcheck-c05-imports-{}", std::process::id())));
     }
     // in other processes: the hand-written programs, the unary matrix with calls and generated programs
     if !session.stopped() {
